@@ -465,7 +465,13 @@ class Sampler:
         returns this.
         """
         # Store circuit unitary and input state
-        vals = [self.__circuit.U_full, self.input_state, self.backend.backend]
+        vals = [
+            self.__circuit.U_full,
+            self.__circuit.heralds,
+            self.__circuit.n_modes,
+            self.input_state,
+            self.backend.backend,
+        ]
         # Loop through source parameters and add these as well
         for prop in [
             "brightness",
